@@ -4990,13 +4990,23 @@ fn check_param_types(
     arg_values: &[Value],
     type_bindings: &TypeVarEnv,
 ) -> Result<(), (RestoreValues, EvalError)> {
+    // The receiver and arguments, in the order they were on the value
+    // stack, so a resumed call sees them again.
+    let saved_values = || {
+        let mut saved_values = vec![receiver_value.clone()];
+        for value in arg_values.iter().rev() {
+            saved_values.push(value.clone());
+        }
+        saved_values
+    };
+
     for (i, (param, arg_value)) in params.iter().zip(arg_values).enumerate() {
         if let Some(param_hint) = &param.hint {
             let param_ty = match Type::from_hint(param_hint, &env.types, type_bindings) {
                 Ok(ty) => ty,
                 Err(e) => {
                     return Err((
-                        RestoreValues(vec![]),
+                        RestoreValues(saved_values()),
                         EvalError::Exception(ExceptionInfo {
                             position: arg_positions[i].clone(),
                             message: ErrorMessage(vec![
@@ -5009,14 +5019,8 @@ fn check_param_types(
             };
 
             if let Err(msg) = check_type(arg_value, &param_ty, env) {
-                let mut saved_values = vec![];
-                saved_values.push(receiver_value.clone());
-                for value in arg_values.iter().rev() {
-                    saved_values.push(value.clone());
-                }
-
                 return Err((
-                    RestoreValues(saved_values),
+                    RestoreValues(saved_values()),
                     EvalError::Exception(ExceptionInfo {
                         position: arg_positions[i].clone(),
                         message: msg,
